@@ -32,6 +32,7 @@ fn main() {
         #[cfg(feature = "std")]
         "edges" => edges::run(&args[2..]),
         "table" => pure::run(&args[2..]),
+        "firstcall" => pure::first_call(&args[2..]),
         "ints" => ints::run(&args[2..]),
         #[cfg(feature = "with_serde")]
         "serde" => serde_probe::run(&args[2..]),
